@@ -76,6 +76,7 @@ type Frame struct {
 	iters map[ssa.Value]*mapIter
 	// recovered: frame has deferred recover
 	recovers bool
+	isInit   bool
 }
 
 func (fr *Frame) topFrame() *Frame {
@@ -759,6 +760,11 @@ func (fr *Frame) execUnOp(x *ssa.UnOp) {
 
 func (fr *Frame) ghostEvent(kind string, ins ssa.Instruction) {}
 
+// assumeHere adds a fact that constrains pre-existing state (e.g. the content of freshly
+// allocated, never-written cells): it must be guarded by the reachability of the current
+// point, because exclusive branches reuse the same fresh object ids.
+func (fr *Frame) assumeHere(t Term) { fr.c.assume(implies(fr.reach, t)) }
+
 func (fr *Frame) binop(op token.Token, a, b Term, ta, tb, tr types.Type, va, vb ssa.Value, pos token.Pos) Term {
 	c := fr.c
 	switch op {
@@ -1048,10 +1054,10 @@ func (fr *Frame) stringToBytes(s Term, src ssa.Value) Term {
 	if k, ok := src.(*ssa.Const); ok && k.Value != nil && len(constStr(k)) <= 32 {
 		str := constStr(k)
 		for i := 0; i < len(str); i++ {
-			c.assume(eq(sel(h, elemPtr(base, tInt(int64(i))), SInt), tInt(int64(str[i]))))
+			fr.assumeHere(eq(sel(h, elemPtr(base, tInt(int64(i))), SInt), tInt(int64(str[i]))))
 		}
 	} else {
-		c.assume(Term{fmt.Sprintf("(forall ((i Int)) (! (=> (and (<= 0 i) (< i %s)) (= (select %s (pelem %s i)) (str_at %s i))) :pattern ((select %s (pelem %s i)))))", n.S, h.S, base.S, s.S, h.S, base.S), SBool})
+		fr.assumeHere(Term{fmt.Sprintf("(forall ((i Int)) (! (=> (and (<= 0 i) (< i %s)) (= (select %s (pelem %s i)) (str_at %s i))) :pattern ((select %s (pelem %s i)))))", n.S, h.S, base.S, s.S, h.S, base.S), SBool})
 	}
 	return res
 }
@@ -1278,7 +1284,7 @@ func (fr *Frame) execMakeSlice(x *ssa.MakeSlice) {
 		srt := c.sortOf(lp.t)
 		h := c.heap(fr.st, srt)
 		cell := lp.ptr(Term{"(pelem " + base.S + " i)", SPtr})
-		c.assume(Term{fmt.Sprintf("(forall ((i Int)) (! (= (select %s %s) %s) :pattern ((select %s %s))))", h.S, cell.S, c.zero(lp.t).S, h.S, cell.S), SBool})
+		fr.assumeHere(Term{fmt.Sprintf("(forall ((i Int)) (! (= (select %s %s) %s) :pattern ((select %s %s))))", h.S, cell.S, c.zero(lp.t).S, h.S, cell.S), SBool})
 	}
 	fr.vals[x] = mkSlice(base, tInt(0), ln, cp)
 }
